@@ -14,8 +14,9 @@
 EXTENDS KvStore, Json
 
 Trace == ndJsonDeserialize("store.ndjson")
-VARIABLES l, j, m, cur, pos, nwrites, faulted, exp
-vars == <<l, j, m, cur, pos, nwrites, faulted, exp>>
+VARIABLES l, j, m, cur, pos, nwrites, faulted, exp,
+          re          \* the harness went on polling after the statement had failed
+vars == <<l, j, m, cur, pos, nwrites, faulted, exp, re>>
 
 Case == Trace[l]
 Ev == Case.events[j]
@@ -39,7 +40,7 @@ ExpOf(c) ==
         evalfails |-> st = "err", modelled |-> st # "unspec"]
   ELSE NoExp
 
-Init == /\ l = 1 /\ j = 1 /\ cur = <<>> /\ pos = 1 /\ nwrites = 0 /\ faulted = FALSE
+Init == /\ l = 1 /\ j = 1 /\ cur = <<>> /\ pos = 1 /\ nwrites = 0 /\ faulted = FALSE /\ re = FALSE
         /\ m = IF Len(Trace) >= 1 THEN StartMap(Trace[1]) ELSE EmptyMap
         /\ exp = IF Len(Trace) >= 1 THEN ExpOf(Trace[1]) ELSE NoExp
 
@@ -47,7 +48,11 @@ InSeq(x, s) == \E i \in 1..Len(s) : s[i] = x
 
 \* ---- one event: returns "" when allowed, else the name of the violated clause
 Judge(c, ev) ==
-  IF faulted /\ ev.op \in MutatingOps \cup ReadOps THEN "storage-call-after-failed-call"                         \* C13 StopAtFault
+  IF ev.op = "Repoll" THEN ""
+  \* polled again after it failed (C12: the writes are issued once however often the plan is polled; C13): reading again is
+  \* the caller's business, writing again is not
+  ELSE IF re THEN (IF ev.op \in MutatingOps THEN "write-issued-when-polled-again-after-failure" ELSE "")
+  ELSE IF faulted /\ ev.op \in MutatingOps \cup ReadOps THEN "storage-call-after-failed-call"                         \* C13 StopAtFault
   ELSE IF faulted /\ ev.op \in {"PollEnd", "BuildEnd"} /\ ev.err # "fault" THEN "storage-error-not-surfaced"       \* C13 ErrorSurfaces
   ELSE IF faulted /\ ev.op \in {"Poll", "Build"} THEN "polled-again-by-harness"
   ELSE IF ev.op \in MutatingOps /\ c.kind = "select" THEN "select-mutates"                                        \* C13 ReadOnlySelect
@@ -115,7 +120,7 @@ Final(c) ==
   ELSE IF c.kind = "select" THEN (IF Snapshot(m) = Snapshot(StartMap(c)) THEN "" ELSE "select-changes-store")
   ELSE ""
 
-NextCase == /\ l' = l + 1 /\ j' = 1 /\ cur' = <<>> /\ pos' = 1 /\ nwrites' = 0 /\ faulted' = FALSE
+NextCase == /\ l' = l + 1 /\ j' = 1 /\ cur' = <<>> /\ pos' = 1 /\ nwrites' = 0 /\ faulted' = FALSE /\ re' = FALSE
             /\ m' = IF l + 1 <= Len(Trace) THEN StartMap(Trace[l + 1]) ELSE EmptyMap
             /\ exp' = IF l + 1 <= Len(Trace) THEN ExpOf(Trace[l + 1]) ELSE NoExp
 
@@ -128,6 +133,7 @@ Next == /\ l <= Len(Trace)
                      /\ m' = e.m /\ cur' = e.cur /\ pos' = e.pos
                      /\ nwrites' = nwrites + (IF Ev.op \in MutatingOps THEN 1 ELSE 0)
                      /\ faulted' = (faulted \/ Ev.err = "fault")
+                     /\ re' = (re \/ Ev.op = "Repoll")
                      /\ j' = j + 1 /\ l' = l /\ exp' = exp
                 ELSE PrintT(<<"REJECT", Case.id, v, j>>) /\ NextCase
 =============================================================================
